@@ -44,4 +44,5 @@ def main(tier, replay=None):
                        "percent hack whose 'fqdn' itself contains '@' with further '%' to its left is unspecified by the documents: such cases are executed (memory safety) but not compared",
                        "duplicate keys in a control file are outside the domain (property text)"]
     res.require_nonzero("evaluations", "routed_local", "routed_virtual", "routed_remote", "percent_hack_applied", "hup_rereads", "senderadd_cases", "partitions_checked", "control_edits")
+    lib_conformance(res, rd, src, ['bytes', 'map', 'ctl'], tier, asan=True)
     return res.finish()
